@@ -5,6 +5,7 @@ package main
 import (
 	"fmt"
 	"go/ast"
+	"go/constant"
 	"go/token"
 	"go/types"
 	"sort"
@@ -1112,4 +1113,115 @@ func c18R5(c *Ctx, r *Report) {
 		})
 	}
 	r.Floor(rule, n, 8, "stores into functionBuilder.ptrElem")
+}
+
+// ---- C20.R5: header comments, line length, empty default table ---------------------------------------------
+
+func init() {
+	lateInits = append(lateInits, func() {
+		props["C20"].Quick = append(props["C20"].Quick, c20R5)
+		props["C20"].Explanation += " (R5) in ParseTOMLFile the inline comment is stripped before the section-header test, the scanner's token limit is raised above bufio's 64 KiB default (the writer puts a value on one line whatever its length), and writeTOMLSection omits the header only for a non-empty default table."
+	})
+}
+
+func c20R5(c *Ctx, r *Report) {
+	const rule = "C20.R5"
+	r.Describe(rule, "toml: stripInlineComment is applied on every path to isSectionHeader in ParseTOMLFile; bufio.Scanner.Buffer is called before the scan loop; the `sectionName != \"default\"` header test of writeTOMLSection also lets an empty table through")
+	file := c.LookupFn(pkgTOML, "ParseTOMLFile")
+	isHdr := c.LookupFn(pkgTOML, "isSectionHeader")
+	strip := c.LookupFn(pkgTOML, "stripInlineComment")
+	wsec := c.LookupFn(pkgTOML, "writeTOMLSection")
+	if !r.Anchor(rule, file != nil && isHdr != nil && strip != nil && wsec != nil, "toml ParseTOMLFile / isSectionHeader / stripInlineComment / writeTOMLSection") {
+		return
+	}
+	info := file.Info()
+	// (a) every line that starts with '[' is stripped before the header test: the strip call sits under a guard that
+	// only tests for the leading bracket (or under none)
+	stripped := false
+	walkWithStack(file.Decl.Body, func(x ast.Node, stack []ast.Node) bool {
+		cl, ok := x.(*ast.CallExpr)
+		if !ok || !isCallTo(info, cl, strip.Obj) {
+			return true
+		}
+		okGuards := true
+		for _, a := range stack {
+			ifs, isIf := a.(*ast.IfStmt)
+			if !isIf {
+				continue
+			}
+			good := false
+			if v := constOf(info, ifs.Cond); v != nil && v.Kind() == constant.Bool && constant.BoolVal(v) {
+				good = true
+			}
+			if gc, ok := ast.Unparen(ifs.Cond).(*ast.CallExpr); ok && len(gc.Args) == 2 {
+				if f := callee(info, gc); f != nil && f.Name() == "HasPrefix" {
+					if v := constOf(info, gc.Args[1]); v != nil && constant.StringVal(v) == "[" {
+						good = true
+					}
+				}
+			}
+			if !good {
+				okGuards = false
+			}
+		}
+		if okGuards {
+			stripped = true
+		}
+		return true
+	})
+	var stripPos, hdrPos token.Pos
+	for _, cl := range callsIn(file.Decl.Body, false) {
+		if isCallTo(info, cl, strip.Obj) && stripPos == token.NoPos {
+			stripPos = cl.Pos()
+		}
+		if isCallTo(info, cl, isHdr.Obj) && hdrPos == token.NoPos {
+			hdrPos = cl.Pos()
+		}
+	}
+	r.Check(stripPos != token.NoPos && hdrPos != token.NoPos && stripPos < hdrPos && stripped, rule, file.Name(), "comment stripped before the section-header test", c.pos(file.Decl.Pos()),
+		"`[build] # comment` does not end in ']' and is not recognised as a header: ParseTOMLFile fails with `invalid line`, so a comment changes the parsed result")
+	// (b) scanner buffer raised
+	buffered := false
+	for _, cl := range callsIn(file.Decl.Body, false) {
+		if f := callee(info, cl); f != nil && f.Pkg() != nil && f.Pkg().Path() == "bufio" && f.Name() == "Buffer" && len(cl.Args) == 2 {
+			if v := constOf(info, cl.Args[1]); v != nil {
+				if n, ok := constant.Int64Val(v); ok && n > 64*1024 {
+					buffered = true
+				}
+			}
+		}
+	}
+	usesScanner := strings.Contains(exprStrBody(file), "bufio.NewScanner")
+	r.Check(!usesScanner || buffered, rule, file.Name(), "line length not limited to bufio's 64 KiB default", c.pos(file.Decl.Pos()),
+		"a string value longer than 64 KiB is written on one line and cannot be read back (`bufio.Scanner: token too long`)")
+	// (c) writer: header omitted only for a non-empty default table
+	winfo := wsec.Info()
+	okHdr := false
+	ast.Inspect(wsec.Decl.Body, func(x ast.Node) bool {
+		ifs, ok := x.(*ast.IfStmt)
+		if !ok {
+			return true
+		}
+		neq, empty := false, false
+		for _, d := range disjuncts(ifs.Cond) {
+			if b, ok := isBinOp(d, token.NEQ); ok {
+				if v := constOf(winfo, b.Y); v != nil && v.Kind() == constant.String && constant.StringVal(v) == "default" {
+					neq = true
+				}
+			}
+			if b, ok := isBinOp(d, token.EQL); ok {
+				if cl, ok := ast.Unparen(b.X).(*ast.CallExpr); ok && exprStr(cl.Fun) == "len" {
+					if v := constOf(winfo, b.Y); v != nil && intVal(v) == 0 {
+						empty = true
+					}
+				}
+			}
+		}
+		if neq && empty {
+			okHdr = true
+		}
+		return true
+	})
+	r.Check(okHdr, rule, wsec.Name(), "header written for every section except a non-empty default", c.pos(wsec.Decl.Pos()),
+		"an empty default table is written as nothing at all and is missing from the parsed result")
 }
